@@ -26,9 +26,20 @@ Definition continues (t : rank) (p : option rank) : bool :=   (* yacc: shift rat
   end.
 
 (* what the parser needs from a table *)
-Record table := { pre : str -> option rank; suf : str -> option rank; bin : str -> option rank }.
+(* callr: the rank of `(` after a complete operand (the rule `func : value '(' args ')'`
+   that exists when the factory allows delegates); None when delegates are off *)
+Record table := { pre : str -> option rank; suf : str -> option rank; bin : str -> option rank;
+                  callr : option rank }.
 Definition table_of (B : built) : table :=
-  {| pre := pre_rank B; suf := suf_rank B; bin := bin_rank B |}.
+  {| pre := pre_rank B; suf := suf_rank B; bin := bin_rank B; callr := None |}.
+
+(* `(` carries no precedence in ply while every operator rule does, so yacc reduces every
+   pending operator rule before a delegate call: its rank lies below every level in use *)
+Definition max_level (B : built) : Z :=
+  fold_left (fun m r => Z.max m (Z.max (Z.abs (b_up r)) (Z.abs (b_bp r)))) (rows B) 0.
+Definition call_rank (B : built) : rank := {| grp := max_level B + 1; ln := Ll |}.
+Definition table_of_delegates (B : built) : table :=
+  {| pre := pre_rank B; suf := suf_rank B; bin := bin_rank B; callr := Some (call_rank B) |}.
 
 Inductive token :=
 | TAtom (a : nat)          (* NUMBER, QUOTED_STRING, KEYWORD_STRING, DOLLAR, TRUE, FALSE, NULL *)
@@ -50,6 +61,7 @@ Inductive tree :=
 | ListE (a : args)
 | MapE (a : args)
 | Call (f : str) (a : args)
+| CallV (x : tree) (a : args)        (* delegate call `value(args)`: Function('#call', value, args) *)
 with args :=
 | ANil
 | AEmpty (r : args)                  (* NO_VALUE slot *)
@@ -117,6 +129,16 @@ with loop (fuel : nat) (p : option rank) (l : tree) (ts : list token) {struct fu
         | Some q => if continues q p
                     then match slots f S0 r with
                          | Some (a, TRB :: r') => loop f p (Index l a) r'
+                         | _ => None
+                         end
+                    else Some (l, ts)
+        | None => Some (l, ts)
+        end
+    | TLP :: r =>
+        match callr T with
+        | Some q => if continues q p
+                    then match slots f S0 r with
+                         | Some (a, TRP :: r') => loop f p (CallV l a) r'
                          | _ => None
                          end
                     else Some (l, ts)
@@ -195,6 +217,7 @@ Fixpoint yield (t : tree) : list token :=
   | ListE a => TLB :: yield_args a ++ [TRB]
   | MapE a => TLC :: yield_args a ++ [TRC]
   | Call f a => TFunc f :: yield_args a ++ [TRP]
+  | CallV x a => yield x ++ TLP :: yield_args a ++ [TRP]
   end
 with yield_args (a : args) : list token :=
   match a with
@@ -216,6 +239,7 @@ Definition tokrank (ts : list token) : option rank :=
   match ts with
   | TOp o :: _ => match bin T o with Some q => Some q | None => suf T o end
   | TLB :: _ => bin T sym_index
+  | TLP :: _ => callr T
   | _ => None
   end.
 
@@ -235,6 +259,7 @@ Fixpoint ls_ok (p : option rank) (x : tree) : Prop :=
   | Bin o l _ => (exists q, bin T o = Some q /\ continues q p = true) /\ ls_ok p l
   | Suf o l => (exists q, suf T o = Some q /\ continues q p = true) /\ ls_ok p l
   | Index l _ => (exists q, bin T sym_index = Some q /\ continues q p = true) /\ ls_ok p l
+  | CallV l _ => (exists q, callr T = Some q /\ continues q p = true) /\ ls_ok p l
   | _ => True
   end.
 
@@ -249,6 +274,7 @@ Fixpoint wf (x : tree) : Prop :=
   | Bin o l r => exists q, bin T o = Some q /\ wf l /\ wf r /\ rs_ok q l /\ ls_ok (Some q) r
   | Suf o l => exists q, suf T o = Some q /\ bin T o = None /\ wf l /\ rs_ok q l
   | Index l a => exists q, bin T sym_index = Some q /\ wf l /\ rs_ok q l /\ wf_args a
+  | CallV l a => exists q, callr T = Some q /\ wf l /\ rs_ok q l /\ wf_args a
   | ListE a | MapE a | Call _ a => wf_args a
   end
 with wf_args (a : args) : Prop :=
@@ -283,7 +309,7 @@ Fixpoint shaped (t : tree) : Prop :=
   | Atom _ => True
   | Un _ y | Suf _ y | Wrap y => shaped y
   | Bin _ l r => shaped l /\ shaped r
-  | Index x a => shaped x /\ shape_from S0 a /\ shaped_args a
+  | Index x a | CallV x a => shaped x /\ shape_from S0 a /\ shaped_args a
   | ListE a | MapE a | Call _ a => shape_from S0 a /\ shaped_args a
   end
 with shaped_args (a : args) : Prop :=
@@ -321,6 +347,7 @@ Fixpoint tree_eqb (a b : tree) : bool :=
   | Index x s, Index x' s' => tree_eqb x x' && args_eqb s s'
   | ListE s, ListE s' | MapE s, MapE s' => args_eqb s s'
   | Call f s, Call f' s' => str_eqb f f' && args_eqb s s'
+  | CallV x s, CallV x' s' => tree_eqb x x' && args_eqb s s'
   | _, _ => false
   end
 with args_eqb (a b : args) : bool :=
@@ -335,8 +362,10 @@ with args_eqb (a b : args) : bool :=
 (* one correspondence case: the tokens the real lexer produced for a text and the
    tree the real parser built (None: YaqlGrammarException) *)
 Record case := { c_toks : list token; c_tree : option tree }.
-Definition case_ok (B : option built) (c : case) : bool :=
+Definition case_ok_with (delegates : bool) (B : option built) (c : case) : bool :=
   match B with
   | None => false
-  | Some b => option_eqb tree_eqb (parse (table_of b) (c_toks c)) (c_tree c)
+  | Some b => option_eqb tree_eqb
+                (parse (if delegates then table_of_delegates b else table_of b) (c_toks c)) (c_tree c)
   end.
+Definition case_ok := case_ok_with false.
